@@ -20,7 +20,7 @@ type c12 struct{}
 func (c12) ID() string    { return "C12" }
 func (c12) Level() string { return "exploration" }
 func (c12) Rule() string {
-	return "10 path-bearing attribute kinds (build context, additional context, env_file, label_file, bind source in short and long syntax, secret file, config file, develop watch path, bind device of a local volume) x 13 path shapes (./x, x/y, ../x, ., /abs, ~/x, ~, C:\\x, \\\\srv\\share, https://, git@, docker-image://, ssh://) x 9 origins (main, override, include depth 1, include depth 2, extended base in another directory, extended base used from an included file, extended base / included file in a sibling directory whose name starts with the project directory's name) x 3 working-directory shapes, and again with the service and resources named with an x- prefix, with resolution on (and off for main/override); expected value from the anchoring reference (Appendix A.5); plus the corpus documents with `./p` placed in every non-path string position (nothing may be anchored), and idempotence (render, reload, compare). distinct = distinct (attribute, shape, origin) outcomes"
+	return "10 path-bearing attribute kinds (build context, additional context, env_file, label_file, bind source in short and long syntax, secret file, config file, develop watch path, bind device of a local volume) x 17 path shapes (./x, x/y, ../x, ., /abs, ~/x, ~, C:\\x, \\\\srv\\share, https://, git@, docker-image://, ssh://) x 9 origins (main, override, include depth 1, include depth 2, extended base in another directory, extended base used from an included file, extended base / included file in a sibling directory whose name starts with the project directory's name) x 3 working-directory shapes, and again with the service and resources named with an x- prefix, with resolution on (and off for main/override); expected value from the anchoring reference (Appendix A.5); plus the corpus documents with `./p` placed in every non-path string position (nothing may be anchored), and idempotence (render, reload, compare). distinct = distinct (attribute, shape, origin) outcomes"
 }
 func (c12) Assumptions() []string {
 	return []string{
@@ -86,6 +86,8 @@ type c12shape struct {
 var c12shapes = []c12shape{
 	{"./x", "rel"}, {"x/y", "rel"}, {"../x", "rel"}, {".", "rel"}, {"/abs/p", "abs"}, {"~/x", "home"}, {"~", "home"},
 	{`C:\x`, "win"}, {`\\srv\share\dir`, "win"}, {"https://h.example/r.git", "url"}, {"git@h.example:r", "url"}, {"docker-image://img", "url"}, {"ssh://h.example/r", "url"},
+	// scheme:// references that are not well-formed URLs (a tag, a digest, a stage name after the host part)
+	{"docker-image://alpine:3.19", "url"}, {"docker-image://reg.example:5000/img:tag", "url"}, {"oci-layout://store@sha256:0123abcd", "url"}, {"target://base:stage", "url"},
 }
 
 // non-path positions receiving "./p": none of them may be anchored
